@@ -306,7 +306,7 @@ PLANS = {
 
 # Thorough-tier depth: multiply the thorough case counts of the non-exhaustive parts (the counts above were sized when
 # every thorough run took well under a minute; these factors bring each property to several minutes on 16 cores).
-_THOROUGH_FACTOR = {"C01": 5, "C02": 4, "C03": 10, "C04": 10, "C05": 8, "C06": 1, "C07": 1, "C08": 2, "C09": 5, "C10": 5,
+_THOROUGH_FACTOR = {"C01": 5, "C02": 4, "C03": 10, "C04": 5, "C05": 3, "C06": 1, "C07": 1, "C08": 2, "C09": 5, "C10": 5,
                     "C11": 10, "C12": 5, "C13": 4, "C14": 4, "C15": 5, "C16": 2, "C17": 3, "C18": 5, "C19": 3, "C20": 4}
 for _pid, _f in _THOROUGH_FACTOR.items():
     for _r in PLANS[_pid]["runs"]:
